@@ -45,6 +45,15 @@ impl Off {
 
 /// C04 definition: BeginAligned(x) -> x, EndAligned(x<=0) -> len+x, anything else invalid;
 /// accepted iff 0 <= b <= e <= len
+/// canonical temporary id `!<L><n>` of the given kind (the format reserves these; public ids of this shape are never generated)
+pub fn temp_handle(letter: char, id: &str) -> Option<usize> {
+    let rest = id.strip_prefix('!')?.strip_prefix(letter)?;
+    if rest.is_empty() || !rest.bytes().all(|b| b.is_ascii_digit()) || (rest.len() > 1 && rest.starts_with('0')) {
+        return None;
+    }
+    rest.parse().ok()
+}
+
 pub fn resolve_off(len: usize, off: &Off) -> Result<(usize, usize), &'static str> {
     let cur = |c: Cur| -> Result<usize, &'static str> {
         match c {
@@ -396,24 +405,23 @@ impl Model {
 
     pub fn res(&self, r: &Ref) -> Option<usize> {
         match r {
-            Ref::Id(id) => self.resources.values().find(|x| &x.id == id).map(|x| x.handle),
+            Ref::Id(id) => temp_handle('R', id).and_then(|h| self.resources.get(&h)).or_else(|| self.resources.values().find(|x| &x.id == id)).map(|x| x.handle),
             Ref::Handle(h) => self.resources.get(h).map(|x| x.handle),
             Ref::None => None,
         }
     }
     pub fn set(&self, r: &Ref) -> Option<usize> {
         match r {
-            Ref::Id(id) => self.sets.values().find(|x| &x.id == id).map(|x| x.handle),
+            Ref::Id(id) => temp_handle('S', id).and_then(|h| self.sets.get(&h)).or_else(|| self.sets.values().find(|x| &x.id == id)).map(|x| x.handle),
             Ref::Handle(h) => self.sets.get(h).map(|x| x.handle),
             Ref::None => None,
         }
     }
     pub fn ann(&self, r: &Ref) -> Option<usize> {
         match r {
-            Ref::Id(id) => self
-                .anns
-                .values()
-                .find(|x| x.id.as_deref() == Some(id.as_str()))
+            Ref::Id(id) => temp_handle('A', id)
+                .and_then(|h| self.anns.get(&h))
+                .or_else(|| self.anns.values().find(|x| x.id.as_deref() == Some(id.as_str())))
                 .map(|x| x.handle),
             Ref::Handle(h) => self.anns.get(h).map(|x| x.handle),
             Ref::None => None,
@@ -422,7 +430,7 @@ impl Model {
     pub fn key(&self, set: usize, r: &Ref) -> Option<usize> {
         let s = self.sets.get(&set)?;
         match r {
-            Ref::Id(id) => s.keys.values().find(|x| &x.id == id).map(|x| x.handle),
+            Ref::Id(id) => temp_handle('K', id).and_then(|h| s.keys.get(&h)).or_else(|| s.keys.values().find(|x| &x.id == id)).map(|x| x.handle),
             Ref::Handle(h) => s.keys.get(h).map(|x| x.handle),
             Ref::None => None,
         }
@@ -430,10 +438,9 @@ impl Model {
     pub fn data(&self, set: usize, r: &Ref) -> Option<usize> {
         let s = self.sets.get(&set)?;
         match r {
-            Ref::Id(id) => s
-                .data
-                .values()
-                .find(|x| x.id.as_deref() == Some(id.as_str()))
+            Ref::Id(id) => temp_handle('D', id)
+                .and_then(|h| s.data.get(&h))
+                .or_else(|| s.data.values().find(|x| x.id.as_deref() == Some(id.as_str())))
                 .map(|x| x.handle),
             Ref::Handle(h) => s.data.get(h).map(|x| x.handle),
             Ref::None => None,
